@@ -459,7 +459,7 @@ func init() {
 			"the embedded request; EVERY character of the DID replaced, initial state re-encoded / padded / other alphabet / tail bits / truncated, short form, swapped suffix, and " +
 			"handlers / DIDs whose namespaces are related by prefix. distinct_nontrivial = distinct (method, #keys, #services, #aka, explicit keys?) documents",
 		Cases: func(master uint64, tier string) []Case {
-			n := 160
+			n := 400
 			if tier == "thorough" {
 				n = 25000
 			}
